@@ -146,6 +146,11 @@ def stepLine (d : DState) (line : String) : DState × String :=
     match parseReset rest with
     | some d' => (d', "ok")
     | none => (d, "bad-op")
+  | "duties" :: rest =>
+    -- the duty store changed (it is shared with the duty handlers): same signer state, new duties
+    match parseReset rest with
+    | some d' => ({ d with ctx := { d.ctx with duties := d'.ctx.duties } }, "ok")
+    | none => (d, "bad-op")
   | "v" :: rest =>
     match parseInput rest with
     | some i =>
